@@ -324,6 +324,127 @@ let cmd_scene t =
      Printf.printf "scene %s %s\n" id (if Scene.check_scene sc l then "true" else "false")
    with Nonfinite -> Printf.printf "scene %s nonfinite\n" id)
 
+(* ---------- orders, pairs, intersection step, decision table ---------- *)
+let cmp_chr = function Lt -> "L" | Gt -> "G" | Eq -> "E"
+
+(* orders <id> <prec> <profile> <budget> <op> <A> <B> <stage: q|s>
+   all-pairs matrices of the event order (over the events of the queue / the subdivided vector) and of
+   the segment order (over the left events among them), row-major *)
+let cmd_orders t =
+  let id = next t in
+  let f = fmt_of_string (next t) in
+  let cfg = cfg_of_string (next t) in
+  let budget = next_int t in
+  let op = op_of_string (next t) in
+  let a = BoolOp.as_slice f.num (read_operand f t) in
+  let b = BoolOp.as_slice f.num (read_operand f t) in
+  let stage = next t in
+  let fl = FillQueue.fill_queue f.num a b op in
+  let finish st evs =
+    let ev = Array.of_list evs in
+    let n = Array.length ev in
+    let buf = Buffer.create (n * n + 16) in
+    for i = 0 to n - 1 do for j = 0 to n - 1 do
+        Buffer.add_string buf (cmp_chr (Cmp.cmp_events f.num st ev.(i) ev.(j))) done done;
+    let lefts = List.filter (fun e -> (Event.getE f.num st e).Event.e_left) evs in
+    let lv = Array.of_list lefts in
+    let m = Array.length lv in
+    let buf2 = Buffer.create (m * m + 16) in
+    for i = 0 to m - 1 do for j = 0 to m - 1 do
+        Buffer.add_string buf2 (cmp_chr (Cmp.compare_segments f.num st lv.(i) lv.(j))) done done;
+    let seg e = let x = Event.getE f.num st e in
+      pt_str f x.Event.e_point ^ " " ^ (match x.Event.e_other with Some o -> pt_str f (Event.point_of f.num st o) | None -> "~ ~")
+                ^ " " ^ b01 x.Event.e_left ^ " " ^ b01 x.Event.e_is_subject ^ " " ^ string_of_int (int_of_n x.Event.e_contour_id) in
+    Printf.sprintf "%d %s | %s | %d %s" n (String.concat " ; " (List.map seg evs)) (Buffer.contents buf) m (Buffer.contents buf2) in
+  if stage = "q" then begin
+    let st = fl.FillQueue.f_st in
+    let rec drain q acc = match Divide.qpop f.num st q with None -> List.rev acc | Some (e, q') -> drain q' (e :: acc) in
+    Printf.printf "orders %s ok %s\n" id (finish st (drain fl.FillQueue.f_q []))
+  end else begin
+    let r = Subdivide.subdivide f.num cfg (nat_of_int budget) fl op in
+    Printf.printf "orders %s %s\n" id (outcome_str r (fun ((st, evs), _) -> finish st evs))
+  end
+
+(* two segments given by their endpoints; built the way fill_queue builds them *)
+let mk_segment f st (p : Num.pt) (q : Num.pt) subj cid =
+  let (st1, e1) = Event.alloc f.num st (Event.new_event f.num (n_of_int cid) p false None subj true) in
+  let (st2, e2) = Event.alloc f.num st1 (Event.new_event f.num (n_of_int cid) q false (Some e1) subj true) in
+  let st3 = Event.upd f.num st2 e1 (fun e -> Event.set_other f.num e (Some e2)) in
+  let st4 = if Cmp.ev_lt f.num st3 e1 e2 then Event.upd f.num st3 e2 (fun e -> Event.set_left f.num e true)
+    else Event.upd f.num st3 e1 (fun e -> Event.set_left f.num e true) in
+  let (l, r) = if (Event.getE f.num st4 e1).Event.e_left then (e1, e2) else (e2, e1) in
+  (st4, l, r)
+
+(* pair <id> <prec> p1 q1 subj1 cid1 p2 q2 subj2 cid2 -> the two orders in both directions *)
+let cmd_pair t =
+  let id = next t in
+  let f = fmt_of_string (next t) in
+  let p1 = read_pt f t in let q1 = read_pt f t in
+  let s1 = next_int t = 1 in let c1 = next_int t in
+  let p2 = read_pt f t in let q2 = read_pt f t in
+  let s2 = next_int t = 1 in let c2 = next_int t in
+  let (st, l1, r1) = mk_segment f (Event.empty_store f.num) p1 q1 s1 c1 in
+  let (st, l2, r2) = mk_segment f st p2 q2 s2 c2 in
+  let c a b = cmp_chr (Cmp.cmp_events f.num st a b) in
+  let s a b = cmp_chr (Cmp.compare_segments f.num st a b) in
+  Printf.printf "pair %s %s%s%s%s%s%s%s%s %s%s%s%s\n" id
+    (c l1 l2) (c l2 l1) (c r1 r2) (c r2 r1) (c l1 r2) (c r2 l1) (c r1 l2) (c l2 r1)
+    (s l1 l2) (s l2 l1) (s l1 l1) (s l2 l2)
+
+(* pi <id> <prec> <profile> p1 q1 subj1 io1 oio1 p2 q2 subj2 io2 oio2 : the public intersection step on two
+   fresh segments; prints the return code, both segments afterwards and the queue drained *)
+let cmd_pi t =
+  let id = next t in
+  let f = fmt_of_string (next t) in
+  let cfg = cfg_of_string (next t) in
+  let p1 = read_pt f t in let q1 = read_pt f t in
+  let s1 = next_int t = 1 in let io1 = next_int t = 1 in let oio1 = next_int t = 1 in
+  let p2 = read_pt f t in let q2 = read_pt f t in
+  let s2 = next_int t = 1 in let io2 = next_int t = 1 in let oio2 = next_int t = 1 in
+  let (st, l1, _) = mk_segment f (Event.empty_store f.num) p1 q1 s1 1 in
+  let (st, l2, _) = mk_segment f st p2 q2 s2 2 in
+  let st = Event.upd f.num st l1 (fun e -> Event.set_in_out f.num e io1 oio1) in
+  let st = Event.upd f.num st l2 (fun e -> Event.set_in_out f.num e io2 oio2) in
+  let r = Divide.possible_intersection f.num cfg { Divide.sq_st = st; Divide.sq_q = [] } l1 l2 in
+  let show (s, code) =
+    let st = s.Divide.sq_st in
+    let ref_ = function None -> "~" | Some o -> "@" ^ pt_str f (Event.point_of f.num st o) in
+    let rec drain q acc = match Divide.qpop f.num st q with None -> List.rev acc | Some (e, q') -> drain q' (e :: acc) in
+    let evs = drain s.Divide.sq_q [] in
+    Printf.sprintf "%d | %s | %s | %d | %s" (int_of_nat code) (event_str f st ref_ l1) (event_str f st ref_ l2)
+      (List.length evs) (String.concat " ; " (List.map (event_str f st ref_) evs)) in
+  Printf.printf "pi %s %s\n" id (outcome_str r show)
+
+(* cftable <id> <profile>: compute_fields on every combination of its inputs *)
+let cmd_cftable t =
+  let id = next t in
+  let cfg = cfg_of_string (next t) in
+  let f = f64 in
+  let buf = Buffer.create 100000 in
+  let bools = [false; true] in
+  let ops = [Event.Intersection; Event.Union; Event.Difference; Event.Xor] in
+  let types = [Event.Normal; Event.NonContributing; Event.SameTransition; Event.DifferentTransition] in
+  let pt x y = { Num.px = f.rd (Printf.sprintf "%016Lx" (Int64.bits_of_float x)); Num.py = f.rd (Printf.sprintf "%016Lx" (Int64.bits_of_float y)) } in
+  (* prev kinds: 0 none, 1 non-vertical, 2 vertical; pp kinds: 0 prev has no prev_in_result, 1 it has *)
+  List.iter (fun op -> List.iter (fun esubj -> List.iter (fun ety -> List.iter (fun pk ->
+      List.iter (fun psubj -> List.iter (fun pio -> List.iter (fun poio -> List.iter (fun prt -> List.iter (fun ppk ->
+          if pk = 0 && (psubj || pio || poio || prt <> Event.RTNone || ppk = 1) then () else begin
+            let st = Event.empty_store f.num in
+            let (st, pp, _) = mk_segment f st (pt 0. (-5.)) (pt 9. (-5.)) true 7 in
+            let (st, pl, _) = if pk = 2 then mk_segment f st (pt 1. 0.) (pt 1. 4.) psubj 1 else mk_segment f st (pt 0. 0.) (pt 9. 1.) psubj 1 in
+            let st = Event.upd f.num st pl (fun e -> Event.set_in_out f.num e pio poio) in
+            let st = Event.upd f.num st pl (fun e -> Event.set_result_transition f.num e prt) in
+            let st = if ppk = 1 then Event.upd f.num st pl (fun e -> Event.set_prev_in_result f.num e (Some pp)) else st in
+            let (st, el, _) = mk_segment f st (pt 1. 2.) (pt 8. 3.) esubj 2 in
+            let st = Event.upd f.num st el (fun e -> Event.set_edge_type f.num e ety) in
+            let st' = Fields.compute_fields f.num cfg st el (if pk = 0 then None else Some pl) op in
+            let e = Event.getE f.num st' el in
+            let pir = match e.Event.e_prev_in_result with None -> "~" | Some x -> if x = pl then "p" else if x = pp then "q" else "?" in
+            Buffer.add_string buf (Printf.sprintf "%s%s%s%s%s " (b01 e.Event.e_in_out) (b01 e.Event.e_other_in_out)
+                                     (rt_str e.Event.e_result_transition) pir (et_str e.Event.e_edge_type))
+          end) [0; 1]) [Event.RTNone; Event.InOut; Event.OutIn]) bools) bools) bools) [0; 1; 2]) types) bools) ops;
+  Printf.printf "cftable %s %s\n" id (String.trim (Buffer.contents buf))
+
 let () =
   try
     while true do
@@ -337,6 +458,10 @@ let () =
          | "subdiv" -> cmd_subdiv t
          | "splay" -> cmd_splay t
          | "scene" -> cmd_scene t
+         | "orders" -> cmd_orders t
+         | "pair" -> cmd_pair t
+         | "pi" -> cmd_pi t
+         | "cftable" -> cmd_cftable t
          | c -> Printf.printf "error unknown command %s\n" c);
         flush stdout
       end
